@@ -3,7 +3,7 @@
    modelled in Model.v does not depend on it.  Only the property theorems; each is closed by a
    lemma of Proofs*.v and followed by Print Assumptions. *)
 From Coq Require Import ZArith Bool List Permutation Sorted.
-From C07 Require Import Gen Model ProofsSort ProofsMemo ProofsUsed ProofsResolve ProofsIds.
+From C07 Require Import Gen Model ProofsSort ProofsMemo ProofsUsed ProofsResolve ProofsResolveDep ProofsIds.
 Import ListNotations.
 
 (* utils/iterators.lua ospairs (as scraped: with or without table.sort): for every order in which
@@ -103,3 +103,17 @@ Theorem C07_resolve_symbols_order_free_conditional :
       resolve_fix S resolve force orders' s = Some n' -> n = n'.
 Proof. exact resolve_order_free_conditional_lemma. Qed.
 Print Assumptions C07_resolve_symbols_order_free_conditional.
+
+(* ... and the hypothesis is DISCHARGED for dependency-driven resolution: every symbol resolves (to a type
+   that is a function of the types of the symbols it depends on) as soon as all of those are resolved,
+   nothing is forced - annotated symbols and symbols inferred from already typed right-hand sides.
+   For this class the fixpoint is order-free unconditionally.  (Inference that chooses among several
+   possible types, and the forced fallback, stay outside: there the hypothesis remains undischarged.) *)
+Theorem C07_resolve_symbols_order_free_dependency_driven :
+  forall (deps : Z -> list Z) (syms : list Z) orders orders' s n n',
+    Forall (fun o => incl o syms /\ incl syms o) orders ->
+    Forall (fun o => incl o syms /\ incl syms o) orders' ->
+    resolve_fix (list Z) (dd_resolve deps) dd_force orders s = Some n ->
+    resolve_fix (list Z) (dd_resolve deps) dd_force orders' s = Some n' -> n = n'.
+Proof. exact dependency_driven_order_free. Qed.
+Print Assumptions C07_resolve_symbols_order_free_dependency_driven.
